@@ -21,7 +21,18 @@ CLAIMED = {
         engine="seq-sim"),
 }
 
-NOT_YET = {p: "claimed in DESIGN.md; check under construction in this round (will move to checks when registered)" for p in ["C02","C03","C12","C13","C14","C15","C16"]}
+CLAIMED["C02"] = dict(
+    category="exploration", design="DESIGN.md §8 C02",
+    technique="deterministic simulation: seeded search over reader operation histories (read/read_exact/fill_buf/consume/seek/seek-by-gzi) checked step by step against a flat-array reference model",
+    text="Seeded search over histories of up to 60 operations on one long-lived bgzf::io::Reader / IndexedReader over generated "
+         "block layouts (harness-built members incl. empty blocks, 64 KiB blocks, 0-2 EOF markers; or writer output with sampled "
+         "writer positions). After every operation the returned bytes, the denotation of virtual_position() and monotonicity "
+         "are compared with a flat-array model; seek targets cover every legal spelling of every byte boundary, positions "
+         "reported earlier in the run, and gzi offsets. Sampling over histories, not proof.",
+    note="Trusted: harness block builder/walker (miniz_oxide, own CRC-32) as the definition of the flat content; source delivery is a knob, judged in C12.",
+    engine="seq-sim")
+
+NOT_YET = {p: "claimed in DESIGN.md; check under construction in this round (will move to checks when registered)" for p in ["C03","C12","C13","C14","C15","C16"]}
 
 NOT_APPLICABLE = {
     "C04": "pure function of (records, block layout, index geometry, region): no schedule, fault, crash point or history in the statement; input generation with a scan oracle is not deterministic simulation. Reader-state carry-over between seeks is decided in C02, delivery independence of queries in C12, corrupt indexes in C15.",
